@@ -265,6 +265,15 @@ def gen_c06(ctx, n):
     return scs, metas
 
 
+def residue_tolerance(state):
+    """exactly representable bounds (coarse dyadic grid): a converged infer() is an exact fixpoint up to the library's own
+    1e-7 threshold.  Once a bound has left that grid (weighted KBs halving towards a limit) infer() stops while a geometric
+    tail of the same order as its threshold is still outstanding -- outside the property's "exactly representable" domain;
+    only a movement far above that tail (1e-5) is reported there"""
+    off = any(v.denominator > 1024 for b in state for v in b)
+    return F(1, 10 ** 5) if off else F(1, 10 ** 7)
+
+
 @monitor("c06_fixpoint")
 def mon_c06(sc, obs):
     if whole_error(obs):
@@ -284,11 +293,12 @@ def mon_c06(sc, obs):
             if before != after or amt != 0:
                 # tolerate sub-eps asymptotic residue only when the KB is weighted and the movement is below 1e-7
                 tot = sum(abs(a[0] - b[0]) + abs(a[1] - b[1]) for a, b in zip(before, after))
-                if tot <= F(1, 10 ** 7):
+                if tot <= residue_tolerance(before):
                     continue
                 return (f"after infer() converged in {steps0} steps, node call {op} changes nothing", f"amount {amt}, moved {tot}", None)
         if op[0] == 5:
-            if raw[0] != 1 or amt > F(1, 10 ** 7) or before != after and amt == 0:
+            tol = residue_tolerance(before)
+            if (raw[0] != 1 and tol == F(1, 10 ** 7)) or amt > tol or before != after and amt == 0:
                 return ("second infer() takes 1 step, reports zero, changes nothing", f"steps {raw[0]} amount {amt}", None)
     return None
 
